@@ -92,10 +92,10 @@ def evaluate(case):
 
 
 def cases(tier, seed):
-    fams = ["shipped", "constant", "invB-linear", "kinked", "vaporised"]
+    fams = ["shipped", "shipped0", "constant", "invB-linear", "kinked", "vaporised"]
     grids = ["uniform", "geometric", "irregular", "integer"] if tier == "thorough" else ["uniform", "irregular", "integer"]
     sos = [None, 0.2, 0.5, 0.8]
-    phis = [0.05, 0.1, 0.3]
+    phis = [0.005, 0.05, 0.1, 0.3]
     sws = [0.0, 0.1, 0.25]
     if seed:
         o = seed_offset(seed)
@@ -103,9 +103,9 @@ def cases(tier, seed):
         phis.append(round(0.02 + 0.3 * o, 3))
     out = []
     for fam, g, so, phi, sw, r in itertools.product(fams, grids, sos, phis, sws, range(len(RHOS))):
-        if fam == "shipped" and g != grids[0]:
+        if fam.startswith("shipped") and g != grids[0]:
             continue
-        out.append({"family": fam, "grid": g if fam != "shipped" else "shipped", "So": so, "phi": phi, "Sw": sw,
+        out.append({"family": fam, "grid": g if not fam.startswith("shipped") else "shipped", "So": so, "phi": phi, "Sw": sw,
                     "rho": r, "kr": (len(out) % len(KRS)), "seed": seed})
     return out
 
